@@ -289,6 +289,19 @@ def op_literals(task):
             if r["exc"] or want not in names:
                 viol.append({"what": f"literal cut off at the end of the input {pre!r}: expected {want}, got {names} "
                                      f"{r['exc'] or ''}", "text": pre})
+            if pre.endswith("\\") or pre.endswith("??/"):
+                continue                # a further backslash-newline would be escaped itself
+            # ... and cut off right after a line splice (which is no character of the literal), and for
+            # character constants at the end of a line that ends in a splice
+            for sp in ("\\\n", "??/\n"):
+                tails = [(sp, want)] + ([(sp + "\nx;", "UNEXPECTED_EOL_CHR")] if kind == "CHAR_CONST" else [])
+                for tail, w2 in tails:
+                    cases += 1
+                    r = lex(pre + tail)
+                    names = [e["name"] for e in r["errors"]]
+                    if r["exc"] or w2 not in names:
+                        viol.append({"what": f"unterminated literal {pre + tail!r}: expected {w2}, got {names} {r['exc'] or ''}",
+                                     "text": pre + tail})
     for lit, name in MALFORMED + LONG_MALFORMED:
         cases += 1
         r = lex(lit)
